@@ -65,6 +65,9 @@ def sqlite_critical_section(repo: Repo, f: FuncInfo, all_sites: list[sqlmini.Sql
         return ns[0] if ns else None
 
     dom = g.dominators()
+    if not locks:
+        out.append(CSResult(False, f"{q}::no-lock-statement", f.loc(), "read-test-write without BEGIN IMMEDIATE: two processes can both execute the SELECT before either writes, both pass the test and both write (check-then-act across connections)"))
+        return out
     # (a) a lock statement dominates every read and write
     lock_nodes = [node_of(s) for s in locks]
     lock_nodes = [n for n in lock_nodes if n is not None]
